@@ -476,12 +476,13 @@ func init() {
 		section{"general", tiered(500, 20000), func(w *core.W, j int) { c09Run(w, j, false) }},
 		section{"tsig", tiered(100, 2000), c09Tsig},
 		section{"large", tiered(108, 2400), c09Large},
+		concurrentSection("C09"),
 	)
 	core.Register(&core.Monitor{
 		ID: "C09", Level: "exploration", Plan: plan, Run: run,
 		Rule: "replies (with/without OPT at any position in the additional section, TC preset or not, pool names shared/unshared, 0..40 records) x sizes {0,511,512,513,1232,4096,65535, the exact compressed packed length of every record prefix and +-1, the uncompressed length +-1, random}; 17..60 KiB replies with new owner names introduced throughout and a padded OPT, and replies whose filler brings a new owner name to offset 16384-delta (delta around 0 and around the OPT length) reused by 40 later records, at sizes around the exact compressed length; " +
 			"oracle from the statement: pointer-identical section prefixes, no later-section record after a drop, OPT retained once, TC == was||dropped, fits when header+question+OPT fit, nothing dropped when it fits, first dropped record would not fit (escape-free common types); " +
-			"non-trivial = distinct (message,size)",
+			"the same operations called from 8 goroutines at once give the results they give alone; non-trivial = distinct (message,size)",
 		MinObserved: []string{"messages", "truncations", "first_dropped_checked", "tsig_messages", "late_name_messages", "messages_over_16384"},
 	})
 }
